@@ -2,7 +2,12 @@ use std::cell::Cell;
 #[cfg(feature = "work_steal")]
 use std::cell::UnsafeCell;
 use std::io;
+#[cfg(not(may_verif))]
 use std::sync::atomic::{AtomicUsize, Ordering};
+#[cfg(may_verif)]
+use crate::verif::atomic::AtomicUsize;
+#[cfg(may_verif)]
+use std::sync::atomic::Ordering;
 use std::sync::{Arc, Once};
 use std::thread;
 use std::time::Duration;
